@@ -1,4 +1,177 @@
-//! Test events (registered when `Cfg::events` is set).
-use bevy::prelude::*;
+//! Test events (registered when `Cfg::events` is set) and delivery recording.
+//!
+//! Deliveries are observed the way game logic would observe them: by reader systems with their
+//! own cursors and by observers installed inside the apps - never by inspecting buffer lengths.
+use bevy::{ecs::entity::MapEntities, prelude::*};
+use bevy_replicon::{client::ServerUpdateTick, prelude::*};
+use serde::{Deserialize, Serialize};
+use serde_json::{Value, json};
 
-pub fn register(_app: &mut App) {}
+/// Server -> client event names in registration order (server channel = 2 + index without protocol check).
+pub const SEV: [&str; 4] = ["SOrd", "SInd", "SMap", "STrig"];
+/// Client -> server event names in registration order (client channel = 1 + index without protocol check).
+pub const CEV: [&str; 3] = ["COrd", "CMap", "CTrig"];
+
+#[derive(Event, Serialize, Deserialize, Clone, Debug)]
+pub struct SOrd {
+    pub id: u32,
+}
+#[derive(Event, Serialize, Deserialize, Clone, Debug)]
+pub struct SInd {
+    pub id: u32,
+}
+#[derive(Event, Serialize, Deserialize, Clone, Debug)]
+pub struct SMap {
+    pub id: u32,
+    pub e: Entity,
+}
+impl MapEntities for SMap {
+    fn map_entities<M: EntityMapper>(&mut self, mapper: &mut M) {
+        self.e = mapper.get_mapped(self.e);
+    }
+}
+#[derive(Event, Serialize, Deserialize, Clone, Debug)]
+pub struct STrig {
+    pub id: u32,
+}
+#[derive(Event, Serialize, Deserialize, Clone, Debug)]
+pub struct COrd {
+    pub id: u32,
+}
+#[derive(Event, Serialize, Deserialize, Clone, Debug)]
+pub struct CMap {
+    pub id: u32,
+    pub e: Entity,
+}
+impl MapEntities for CMap {
+    fn map_entities<M: EntityMapper>(&mut self, mapper: &mut M) {
+        self.e = mapper.get_mapped(self.e);
+    }
+}
+#[derive(Event, Serialize, Deserialize, Clone, Debug)]
+pub struct CTrig {
+    pub id: u32,
+}
+
+/// Emissions queued by the harness; performed by `emit_pending` inside the app's `Update`,
+/// i.e. where game logic would emit.
+#[derive(Resource, Default)]
+pub struct PendingEmits(pub Vec<Emit>);
+
+pub enum Emit {
+    /// server event: type, id, mode, entity reference / trigger target
+    S { t: String, id: u32, mode: SendMode, e: Option<Entity> },
+    /// client event: type, id, *server* entity whose client counterpart is referenced / targeted
+    /// (resolved through the entity map when the emission happens; a client-local entity otherwise)
+    C { t: String, id: u32, e: Option<Entity> },
+}
+
+fn emit_pending(
+    mut pending: ResMut<PendingEmits>,
+    mut commands: Commands,
+    map: Option<Res<bevy_replicon::shared::server_entity_map::ServerEntityMap>>,
+) {
+    for em in pending.0.drain(..) {
+        match em {
+            Emit::S { t, id, mode, e } => match t.as_str() {
+                "SOrd" => {
+                    commands.send_event(ToClients { mode, event: SOrd { id } });
+                }
+                "SInd" => {
+                    commands.send_event(ToClients { mode, event: SInd { id } });
+                }
+                "SMap" => {
+                    commands.send_event(ToClients { mode, event: SMap { id, e: e.unwrap_or(Entity::PLACEHOLDER) } });
+                }
+                "STrig" => match e {
+                    Some(e) => commands.server_trigger_targets(ToClients { mode, event: STrig { id } }, e),
+                    None => commands.server_trigger(ToClients { mode, event: STrig { id } }),
+                },
+                _ => panic!("unknown server event {t}"),
+            },
+            Emit::C { t, id, e } => {
+                let e = e.map(|se| {
+                    map.as_ref()
+                        .and_then(|m| m.to_client().get(&se).copied())
+                        .unwrap_or_else(|| commands.spawn_empty().id())
+                });
+                match t.as_str() {
+                "COrd" => {
+                    commands.send_event(COrd { id });
+                }
+                "CMap" => {
+                    commands.send_event(CMap { id, e: e.unwrap_or(Entity::PLACEHOLDER) });
+                }
+                "CTrig" => match e {
+                    Some(e) => commands.client_trigger_targets(CTrig { id }, e),
+                    None => commands.client_trigger(CTrig { id }),
+                },
+                _ => panic!("unknown client event {t}"),
+            }}
+        }
+    }
+}
+
+/// What the game logic of this app observed, in order.
+#[derive(Resource, Default)]
+pub struct EvLog(pub Vec<Value>);
+
+fn upd(t: Option<Res<ServerUpdateTick>>) -> i64 {
+    t.map(|t| t.get() as i64).unwrap_or(-1)
+}
+
+fn read_sord(mut r: EventReader<SOrd>, t: Option<Res<ServerUpdateTick>>, mut log: ResMut<EvLog>) {
+    let u = upd(t);
+    for e in r.read() {
+        log.0.push(json!({"t": "SOrd", "id": e.id, "upd": u}));
+    }
+}
+fn read_sind(mut r: EventReader<SInd>, t: Option<Res<ServerUpdateTick>>, mut log: ResMut<EvLog>) {
+    let u = upd(t);
+    for e in r.read() {
+        log.0.push(json!({"t": "SInd", "id": e.id, "upd": u}));
+    }
+}
+fn read_smap(mut r: EventReader<SMap>, t: Option<Res<ServerUpdateTick>>, mut log: ResMut<EvLog>) {
+    let u = upd(t);
+    for e in r.read() {
+        log.0.push(json!({"t": "SMap", "id": e.id, "upd": u, "ebits": e.e.to_bits()}));
+    }
+}
+fn on_strig(trigger: Trigger<STrig>, t: Option<Res<ServerUpdateTick>>, mut log: ResMut<EvLog>) {
+    let target = trigger.target();
+    let tb = if target == Entity::PLACEHOLDER { json!("none") } else { json!(target.to_bits()) };
+    log.0.push(json!({"t": "STrig", "id": trigger.id, "upd": upd(t), "tbits": tb}));
+}
+fn read_cord(mut r: EventReader<FromClient<COrd>>, mut log: ResMut<EvLog>) {
+    for e in r.read() {
+        log.0.push(json!({"t": "COrd", "id": e.event.id, "from": e.client.to_bits()}));
+    }
+}
+fn read_cmap(mut r: EventReader<FromClient<CMap>>, mut log: ResMut<EvLog>) {
+    for e in r.read() {
+        log.0.push(json!({"t": "CMap", "id": e.event.id, "from": e.client.to_bits(), "ebits": e.event.e.to_bits()}));
+    }
+}
+fn on_ctrig(trigger: Trigger<FromClient<CTrig>>, mut log: ResMut<EvLog>) {
+    let target = trigger.target();
+    let tb = if target == Entity::PLACEHOLDER { json!("none") } else { json!(target.to_bits()) };
+    log.0.push(json!({"t": "CTrig", "id": trigger.event.id, "from": trigger.client.to_bits(), "tbits": tb}));
+}
+
+pub fn register(app: &mut App) {
+    app.init_resource::<EvLog>()
+        .init_resource::<PendingEmits>()
+        .add_systems(Update, emit_pending)
+        .add_server_event::<SOrd>(Channel::Ordered)
+        .add_server_event::<SInd>(Channel::Ordered)
+        .make_event_independent::<SInd>()
+        .add_mapped_server_event::<SMap>(Channel::Ordered)
+        .add_server_trigger::<STrig>(Channel::Ordered)
+        .add_client_event::<COrd>(Channel::Ordered)
+        .add_mapped_client_event::<CMap>(Channel::Ordered)
+        .add_client_trigger::<CTrig>(Channel::Ordered)
+        .add_systems(Update, (read_sord, read_sind, read_smap, read_cord, read_cmap))
+        .add_observer(on_strig)
+        .add_observer(on_ctrig);
+}
